@@ -39,14 +39,16 @@ theorem good_write_mem_taint (w : World) (p p' : PGhost ι) (hg : Good P hf w p)
       | some fu => left; simp [e]
   -- old filter of any id whose new filter is `fu'`
   have hold : ∀ u fu', (commit P w v f x nbs' d' hdr).filters u = some fu' →
-      ∃ fu, w.filters u = some fu ∧ keyOf u fu' = keyOf u fu ∧ isMem fu' = isMem fu ∧ fu'.numHashes = fu.numHashes ∧ FWF fu' := by
+      ∃ fu, w.filters u = some fu ∧ keyOf u fu' = keyOf u fu ∧ isMem fu' = isMem fu ∧ (KOK fu → KOK fu') ∧ FWF fu' := by
     intro u fu' h'
     by_cases e : u = v
     · subst e
       rw [commit_filter] at h'; injection h' with h'; subst h'
-      exact ⟨f, hv, committed_key _ _ _ _ _, committed_isMem _ _ _ _, (committed_fields _ _ _ _).2.1, fwf_committed (hg.fwf u f hv) _ _ _⟩
+      exact ⟨f, hv, committed_key _ _ _ _ _, committed_isMem _ _ _ _,
+        (fun hk => ⟨by rw [(committed_fields _ _ _ _).2.1]; exact hk.1, by rw [(committed_fields _ _ _ _).1]; exact hk.2⟩),
+        fwf_committed (hg.fwf u f hv) _ _ _⟩
     · rw [commit_filters_ne _ _ _ _ _ _ _ _ _ e] at h'
-      exact ⟨fu', h', rfl, rfl, rfl, hg.fwf u fu' h'⟩
+      exact ⟨fu', h', rfl, rfl, id, hg.fwf u fu' h'⟩
   refine ⟨?_, ?_, ?_, ?_, ?_, ?_, ?_⟩
   · intro u fu' h'
     obtain ⟨fu, hfu, _, _, _, _⟩ := hold u fu' h'
@@ -66,7 +68,7 @@ theorem good_write_mem_taint (w : World) (p p' : PGhost ι) (hg : Good P hf w p)
       have hmem := (keyOf_mem_of_eq hk).2
       rw [hkk, hk, hsi]
       apply viewOK_tainted P hf (by rw [hmm]; exact hmem) ht' hM
-      · intro hp; rw [hnh]; exact hoku.k1 (by rw [← hpr]; exact hp)
+      · intro hp; exact hnh (hoku.k1 (by rw [← hpr]; exact hp))
       · rw [hsy]; have := hoku.sv hmem; rw [hk] at this; omega
     · rw [hvi_ne u fu hfu hk, hiu] at hi'; injection hi' with hi'; subst hi'
       have e : u ≠ v := by intro e; subst e; rw [hv] at hfu; injection hfu with hfu; subst hfu; exact hk hkey
